@@ -23,15 +23,20 @@ type Linter struct {
 	ignore     *ignore
 	conf       *config.LinterConfig
 
+	// includers stores the modules that include the module (transitively) by module name
+	// in order to detect circular inclusion
+	includers map[string]map[string]struct{}
+
 	// guards Errors, custom linter plugins report errors from multiple goroutines
 	mu sync.Mutex
 }
 
 func New(c *config.LinterConfig, opts ...optionFunc) *Linter {
 	l := &Linter{
-		lexers: make(map[string]*lexer.Lexer),
-		ignore: &ignore{},
-		conf:   c,
+		lexers:    make(map[string]*lexer.Lexer),
+		ignore:    &ignore{},
+		conf:      c,
+		includers: make(map[string]map[string]struct{}),
 	}
 	for i := range opts {
 		opts[i](l)
@@ -467,6 +472,26 @@ func (l *Linter) resolveFileInclusion(
 		l.Error(e.Match(INCLUDE_STATEMENT_MODULE_LOAD_FAILED))
 		return statements
 	}
+
+	// Prevent circular inclusion, the module must not be included from itself or from modules that it includes
+	parent := include.GetMeta().Token.File
+	if _, ok := l.includers[parent][module.Name]; ok || parent == module.Name {
+		e := &LintError{
+			Severity: ERROR,
+			Token:    include.GetMeta().Token,
+			Message:  fmt.Sprintf("Circular inclusion found for module %s", include.Module.Value),
+		}
+		l.Error(e.Match(INCLUDE_STATEMENT_MODULE_LOAD_FAILED))
+		return statements
+	}
+	includers := map[string]struct{}{parent: {}}
+	for name := range l.includers[parent] {
+		includers[name] = struct{}{}
+	}
+	for name := range l.includers[module.Name] {
+		includers[name] = struct{}{}
+	}
+	l.includers[module.Name] = includers
 
 	if isRoot {
 		statements = l.loadVCL(module.Name, module.Data)
